@@ -395,3 +395,227 @@ func genSeeded(c *Ctx) {
 	}
 	c.Stat("rtseed.outcome", out)
 }
+
+// ---- canonical one-line forms of the contextual subtables (kinds l … q) ----
+
+func showActs(a []gtab.SeqLookup) string {
+	p := make([]string, len(a))
+	for i, x := range a {
+		p[i] = fmt.Sprintf("%d@%d", x.LookupListIndex, x.SequenceIndex)
+	}
+	return strings.Join(p, ".")
+}
+
+func readActs(s string) []gtab.SeqLookup {
+	if s == "" {
+		return nil
+	}
+	var out []gtab.SeqLookup
+	for _, e := range strings.Split(s, ".") {
+		var i, p int
+		fmt.Sscanf(e, "%d@%d", &i, &p)
+		out = append(out, gtab.SeqLookup{SequenceIndex: uint16(p), LookupListIndex: gtab.LookupIndex(i)})
+	}
+	return out
+}
+
+func u16Str(l []uint16) string {
+	p := make([]string, len(l))
+	for i, x := range l {
+		p[i] = fmt.Sprint(x)
+	}
+	return strings.Join(p, ".")
+}
+
+func readU16s(s string) []uint16 {
+	var out []uint16
+	for _, g := range readGids(s, ".") {
+		out = append(out, uint16(g))
+	}
+	return out
+}
+
+func showSets(ss []coverage.Set) string {
+	p := make([]string, len(ss))
+	for i, s := range ss {
+		gl := s.Glyphs()
+		if len(gl) == 0 {
+			p[i] = "e"
+		} else {
+			p[i] = gidsStr(gl, ".")
+		}
+	}
+	return strings.Join(p, ",")
+}
+
+func readSets(s string) []coverage.Set {
+	if s == "" {
+		return nil
+	}
+	var out []coverage.Set
+	for _, e := range strings.Split(s, ",") {
+		set := coverage.Set{}
+		if e != "e" {
+			for _, g := range readGids(e, ".") {
+				set[g] = true
+			}
+		}
+		out = append(out, set)
+	}
+	return out
+}
+
+func showCtxSub(st gtab.Subtable) (string, bool) {
+	switch l := st.(type) {
+	case *gtab.SeqContext1:
+		gl, ok := covOrder(l.Cov)
+		if !ok || len(gl) != len(l.Rules) {
+			return "noncanonical-coverage", true
+		}
+		p := make([]string, len(gl))
+		for i, g := range gl {
+			rs := make([]string, len(l.Rules[i]))
+			for j, r := range l.Rules[i] {
+				rs[j] = gidsStr(r.Input, ".") + "~" + showActs(r.Actions)
+			}
+			p[i] = fmt.Sprintf("%d>%s", g, strings.Join(rs, "+"))
+		}
+		return "l:" + strings.Join(p, ","), true
+	case *gtab.SeqContext2:
+		gl, ok := covOrder(l.Cov)
+		if !ok {
+			return "noncanonical-coverage", true
+		}
+		p := make([]string, len(l.Rules))
+		for i, rules := range l.Rules {
+			rs := make([]string, len(rules))
+			for j, r := range rules {
+				rs[j] = u16Str(r.Input) + "~" + showActs(r.Actions)
+			}
+			p[i] = strings.Join(rs, "+")
+		}
+		return "m:" + gidsStr(gl, ".") + ":" + showClasses(l.Input) + ":" + strings.Join(p, ","), true
+	case *gtab.SeqContext3:
+		return "n:" + showSets(l.Input) + ":" + showActs(l.Actions), true
+	case *gtab.ChainedSeqContext1:
+		gl, ok := covOrder(l.Cov)
+		if !ok || len(gl) != len(l.Rules) {
+			return "noncanonical-coverage", true
+		}
+		p := make([]string, len(gl))
+		for i, g := range gl {
+			rs := make([]string, len(l.Rules[i]))
+			for j, r := range l.Rules[i] {
+				rs[j] = gidsStr(r.Backtrack, ".") + "~" + gidsStr(r.Input, ".") + "~" + gidsStr(r.Lookahead, ".") + "~" + showActs(r.Actions)
+			}
+			p[i] = fmt.Sprintf("%d>%s", g, strings.Join(rs, "+"))
+		}
+		return "o:" + strings.Join(p, ","), true
+	case *gtab.ChainedSeqContext2:
+		gl, ok := covOrder(l.Cov)
+		if !ok {
+			return "noncanonical-coverage", true
+		}
+		p := make([]string, len(l.Rules))
+		for i, rules := range l.Rules {
+			rs := make([]string, len(rules))
+			for j, r := range rules {
+				rs[j] = u16Str(r.Backtrack) + "~" + u16Str(r.Input) + "~" + u16Str(r.Lookahead) + "~" + showActs(r.Actions)
+			}
+			p[i] = strings.Join(rs, "+")
+		}
+		return "p:" + gidsStr(gl, ".") + ":" + showClasses(l.Backtrack) + ":" + showClasses(l.Input) + ":" +
+			showClasses(l.Lookahead) + ":" + strings.Join(p, ","), true
+	case *gtab.ChainedSeqContext3:
+		return "q:" + showSets(l.Backtrack) + ":" + showSets(l.Input) + ":" + showSets(l.Lookahead) + ":" + showActs(l.Actions), true
+	}
+	return "", false
+}
+
+func splitRules(s string) []string {
+	if s == "" {
+		return nil
+	}
+	return strings.Split(s, "+")
+}
+
+func readCtxSub(kind, body string) gtab.Subtable {
+	parts := strings.Split(body, ":")
+	switch kind {
+	case "l":
+		gl, rhs := readPairs(body)
+		rules := make([][]*gtab.SeqRule, len(gl))
+		for i, r := range rhs {
+			for _, e := range splitRules(r) {
+				f := strings.Split(e, "~")
+				rules[i] = append(rules[i], &gtab.SeqRule{Input: readGids(f[0], "."), Actions: readActs(f[1])})
+			}
+		}
+		return &gtab.SeqContext1{Cov: covOf(gl), Rules: rules}
+	case "m":
+		per := strings.Split(parts[2], ",")
+		rules := make([][]*gtab.ClassSeqRule, len(per))
+		for i, r := range per {
+			for _, e := range splitRules(r) {
+				f := strings.Split(e, "~")
+				rules[i] = append(rules[i], &gtab.ClassSeqRule{Input: readU16s(f[0]), Actions: readActs(f[1])})
+			}
+		}
+		return &gtab.SeqContext2{Cov: covOf(readGids(parts[0], ".")), Input: readClasses(parts[1]), Rules: rules}
+	case "n":
+		return &gtab.SeqContext3{Input: readSets(parts[0]), Actions: readActs(parts[1])}
+	case "o":
+		gl, rhs := readPairs(body)
+		rules := make([][]*gtab.ChainedSeqRule, len(gl))
+		for i, r := range rhs {
+			for _, e := range splitRules(r) {
+				f := strings.Split(e, "~")
+				rules[i] = append(rules[i], &gtab.ChainedSeqRule{Backtrack: readGids(f[0], "."), Input: readGids(f[1], "."),
+					Lookahead: readGids(f[2], "."), Actions: readActs(f[3])})
+			}
+		}
+		return &gtab.ChainedSeqContext1{Cov: covOf(gl), Rules: rules}
+	case "p":
+		per := strings.Split(parts[4], ",")
+		rules := make([][]*gtab.ChainedClassSeqRule, len(per))
+		for i, r := range per {
+			for _, e := range splitRules(r) {
+				f := strings.Split(e, "~")
+				rules[i] = append(rules[i], &gtab.ChainedClassSeqRule{Backtrack: readU16s(f[0]), Input: readU16s(f[1]),
+					Lookahead: readU16s(f[2]), Actions: readActs(f[3])})
+			}
+		}
+		return &gtab.ChainedSeqContext2{Cov: covOf(readGids(parts[0], ".")), Backtrack: readClasses(parts[1]),
+			Input: readClasses(parts[2]), Lookahead: readClasses(parts[3]), Rules: rules}
+	case "q":
+		return &gtab.ChainedSeqContext3{Backtrack: readSets(parts[0]), Input: readSets(parts[1]), Lookahead: readSets(parts[2]),
+			Actions: readActs(parts[3])}
+	}
+	return nil
+}
+
+// genCtxLookup draws a contextual lookup (GSUB 5/6 or GPOS 7/8) inside the language's domain over
+// glyphs 3 … n-1.
+func genCtxLookup(c *Ctx, n int, gpos bool) *gtab.LookupTable {
+	r := c.Rng
+	g := g2{r: r, n: n}
+	chained := r.Bool()
+	typ, prefix := 5, "gsub5."
+	switch {
+	case gpos && chained:
+		typ, prefix = 8, "gpos8."
+	case gpos:
+		typ, prefix = 7, "gpos7."
+	case chained:
+		typ, prefix = 6, "gsub6."
+	}
+	l := &gtab.LookupTable{Meta: &gtab.LookupMetaInfo{LookupType: uint16(typ), LookupFlags: gtab.LookupFlags(r.Intn(16))}}
+	k := Pick(r, []int{1, 1, 2, 3})
+	c.Stat("rt.subtables", fmt.Sprint(k))
+	for ; k > 0; k-- {
+		form := prefix + fmt.Sprint(r.Range(1, 3))
+		c.Stat("rt.form", form)
+		l.Subtables = append(l.Subtables, g.genForm(form))
+	}
+	return l
+}
